@@ -499,6 +499,9 @@ func Devs(interest bool) []Dev {
 	}
 	for i := -1; i < len(Signers()); i++ {
 		i := i
+		if i >= 0 && Signers()[i].KeyVariant {
+			continue // key material variants are enumerated by C12 as modes of their own
+		}
 		lab := "none"
 		if i >= 0 {
 			lab = Signers()[i].Name
@@ -715,7 +718,7 @@ func Sweep(bases []Base) []SweepCase {
 	var out []SweepCase
 	for _, base := range bases {
 		for si, sg := range Signers() {
-			if sg.Family != "ecdsa" {
+			if sg.Family != "ecdsa" || sg.KeyVariant {
 				continue
 			}
 			d0 := base.Desc.clone()
